@@ -5,7 +5,12 @@ package peer
 // staleness check only, the registration as it was before another report removed the dead
 // connection and a replacement registered. Everything else is done by the production code.
 
-import "github.com/postalsys/muti-metroo/internal/identity"
+import (
+	"io"
+
+	"github.com/postalsys/muti-metroo/internal/identity"
+	"github.com/postalsys/muti-metroo/internal/protocol"
+)
 
 // C32Rewind makes old the registered connection for id again (under the write lock).
 func C32Rewind(m *Manager, id identity.AgentID, old *Connection) {
@@ -30,3 +35,11 @@ func C32WriterParked(m *Manager) bool {
 // C32RestoreWhileParked puts cur back as the registered connection. The caller holds the read
 // lock and a writer is parked behind it, so nobody else can be reading or writing the map.
 func C32RestoreWhileParked(m *Manager, id identity.AgentID, cur *Connection) { m.peers[id] = cur }
+
+// C38SetWriter gives c a frame writer over w (what the handshake does with the control
+// stream), so that the C38 harness can make chosen frame writes fail.
+func C38SetWriter(c *Connection, w io.Writer) {
+	c.writeMu.Lock()
+	c.writer = protocol.NewFrameWriter(w)
+	c.writeMu.Unlock()
+}
